@@ -152,7 +152,7 @@ def run(ctx):
         for fn in sorted(os.listdir(corpus_dir)):
             if fn.endswith(".vcl"):
                 cases.insert(0, ("corpus/" + fn, open(os.path.join(corpus_dir, fn)).read(), {}))
-    n_gen = 1500 if thorough else 40
+    n_gen = 2500 if thorough else 40
     for i in range(n_gen):
         cases.append(G.random_case(rng, i))
     dirs = [write_case(i, main, mods) for i, (_, main, mods) in enumerate(cases)]
